@@ -445,11 +445,24 @@ func ruleR08d(c *Ctx, r *Report) {
 	}
 }
 
+var guardsFrozenValues map[fieldID]lockClass
+
 // autoGuard extends the guard table, for this run, with every field of the
 // concurrent types that is stored outside the constructor phase and is not yet
 // listed: such a field is shared mutable state, and the only mutex of its type is
 // what must protect it. (A new field is then checked, not reported for being new.)
 func autoGuard(c *Ctx) {
+	// start from the frozen table every time (several trees may be analysed in one process)
+	if guardsFrozenValues == nil {
+		guardsFrozenValues = map[fieldID]lockClass{}
+		for k, v := range guards.values {
+			guardsFrozenValues[k] = v
+		}
+	}
+	guards.values = map[fieldID]lockClass{}
+	for k, v := range guardsFrozenValues {
+		guards.values[k] = v
+	}
 	typeLock := map[string]lockClass{pkgBS + ".ReadOnly": lkRO, pkgBS + ".ReadWrite": lkRO, pkgStorage + ".StorageCar": lkSC, pkgDeferred + ".DeferredCarWriter": lkDCW}
 	for _, fn := range c.RepoFuncs() {
 		if fn.Pkg == nil {
